@@ -80,7 +80,7 @@ pub fn plan(seed: u64) -> Vec<Vec<Op>> {
                 o.host = format!("ok:{}", zones[0]);
             }
             if r.chance(1, 8) {
-                o.fault = Some(Fault { kind: *r.pick(&[FaultKind::Enoent, FaultKind::Eio, FaultKind::Trunc]), at_permille: r.below(1000) as u32 });
+                o.fault = Some(Fault { kind: *r.pick(&[FaultKind::Enoent, FaultKind::Eio, FaultKind::Trunc]), at_permille: r.below(1000) as u32, persist: false });
             }
             v.push(o);
         }
